@@ -72,11 +72,17 @@ META = {
     "C04": dict(
         text="The full statement (C01 with stream breaks and reconnections at any position) is FALSE of the current tree: two kernel-checked counterexample "
              "runs (target break loses in-flight tasks; source restart forgets per-target ack state) that the harness reproduces on the real code on every run "
-             "and reports as KNOWN-FINDING; any other violation is a VIOLATION. Proved: the statement for all fault-free runs (partial). The model with fault "
-             "actions is tied to the real code by differential runs with random breaks/reconnects.",
+             "and reports as KNOWN-FINDING; any other violation is a VIOLATION. PROVED for ALL shard counts and ALL action lists with breaks and re-opens at ANY "
+             "position (C04_modulo_known_findings, ~1750 lines, generalised inductive invariant with ghost bookkeeping outside the machine): under the "
+             "environment hypothesis EnvOKF (RecvOK per batch + a restarted source re-sends old tasks or sends tasks at/above every watermark it announced) "
+             "every acknowledgement sent upstream covers only tasks that are confirmed by their target stream or out of reach in exactly one of the two recorded "
+             "ways (handed to a target incarnation that broke since / also received by an earlier incarnation of the source stream) - i.e. the two findings are "
+             "the ONLY ways a stream failure turns an unconfirmed task into an acknowledged one. Also proved: all fault-free runs. The model with fault actions "
+             "is tied to the real code by differential runs with random breaks/reconnects.",
         design_ref="DESIGN.md §5 C04, §4",
-        note=BASE_NOTE + "Partial: the quantifier over fault positions is covered by refutation + fault-free proof, not by a positive theorem; attribution of violations to known findings is structural (see known_findings.json).",
-        technique="Lean 4 counterexample theorems (decide) + partial invariant proof + model/implementation correspondence with fault injection",
+        note=BASE_NOTE + "The property as stated is refuted (two recorded findings); what is proved is the property modulo exactly those findings, under EnvOKF. "
+             "Attribution of harness violations to known findings is structural (see known_findings.json) and mirrors the theorem's Excused predicate.",
+        technique="Lean 4 inductive-invariant proof over a fine-grained transition system with fault actions (all schedules, all crash points) + kernel-checked counterexamples + model/implementation correspondence with fault injection",
     ),
     "C03": dict(
         text="Safety theorem for ALL shard counts and ALL fault-free action lists: every ack sent upstream is >= every earlier ack on that stream and <= the "
